@@ -117,7 +117,8 @@ def _load_with_fuel(data, with_peek=True, bs=8192):
     """Returns ('value', v) | ('raised', exc) | ('hang', why)."""
     import joblib
     import joblib.compressor as jc
-    fuel = [4 * (len(data) // min(bs, 64)) + 64]
+    # the C unpickler of an uncompressed stream may issue several raw reads per opcode: the budget is per byte
+    fuel = [16 * len(data) + 256]
     dfuel = [4 * (len(data) // min(bs, 64)) + 64]
     saved_bs = jc._BUFFER_SIZE
     jc._BUFFER_SIZE = bs
